@@ -216,7 +216,43 @@ PARENTS = [
     ("parent.two_children", [hsvc("s1"), hsvc("s2", parent="s1", meths=CHILD), hsvc("s3", parent="s1", path="/", meths=CHILD)]),
 ]
 
-FAMILIES = SCOPES + RECURSION + PARENTS
+
+
+def rt_views(views):
+    """ResultType R1 with attributes a, b and the given views {name: attribute names}."""
+    return N("ResultType", "R1", kids=[N("Attributes", kids=[A("a"), A("b")])] + [N("View", vn, kids=[A(x, t="-") for x in attrs]) for vn, attrs in views])
+
+
+def rendering(view, mapping):
+    """A method whose result is R1 rendered with the named view (None: no view named) and whose response maps `mapping`."""
+    m = {"header": N("Header", "b"), "header_renamed": N("Header", "a:X-A"), "cookie": N("Cookie", "b"), "body_name": N("Body", "b"),
+         "body_attribute": N("Body", kids=[A("b", t="-")]), "body_attributes_inside": N("Body", kids=[A("a", t="-")]), "header_inside": N("Header", "a")}[mapping]
+    res = N("Result", t="R1", v="fn", kids=[N("View", view)]) if view else N("Result", t="R1")
+    return svc(meth(res, N("HTTP", kids=[N("GET", "/x"), N("Response", t="200", kids=[m])])))
+
+
+TWO_VIEWS = (("default", ("a", "b")), ("tiny", ("a",)))
+VIEWS = []
+for mapping in ("header", "cookie", "body_name", "body_attribute"):
+    # b is in default only: refused when tiny is rendered and when no view is named (any view may be rendered), fine with default
+    VIEWS.append(("view.tiny_rendered.%s_outside" % mapping, [rt_views(TWO_VIEWS), rendering("tiny", mapping)]))
+    VIEWS.append(("view.default_rendered.%s_inside" % mapping, [rt_views(TWO_VIEWS), rendering("default", mapping)]))
+    VIEWS.append(("view.any_rendered.%s_missing_from_tiny" % mapping, [rt_views(TWO_VIEWS), rendering(None, mapping)]))
+for mapping in ("header_inside", "header_renamed", "body_attributes_inside"):
+    VIEWS.append(("view.tiny_rendered.%s" % mapping, [rt_views(TWO_VIEWS), rendering("tiny", mapping)]))
+    VIEWS.append(("view.any_rendered.%s" % mapping, [rt_views(TWO_VIEWS), rendering(None, mapping)]))
+VIEWS += [
+    ("view.any_rendered.header_missing_from_default", [rt_views((("default", ("a",)), ("tiny", ("a", "b")))), rendering(None, "header")]),
+    ("view.tiny_rendered.header_missing_from_default_only", [rt_views((("default", ("a",)), ("tiny", ("a", "b")))), rendering("tiny", "header")]),
+    ("view.any_rendered.header_implicit_default_view", [rt_views(()), rendering(None, "header")]),
+    ("view.any_rendered.header_only_tiny_defined_with_it", [rt_views((("tiny", ("b",)),)), rendering(None, "header")]),
+    ("view.any_rendered.header_only_tiny_defined_without_it", [rt_views((("tiny", ("a",)),)), rendering(None, "header")]),
+    ("view.missing_view_rendered.header", [rt_views(TWO_VIEWS), rendering("nov", "header")]),
+    ("view.tiny_rendered.streaming_result_cookie_outside", [rt_views(TWO_VIEWS), svc(meth(N("StreamingResult", t="R1", v="fn", kids=[N("View", "tiny")]),
+                                                            N("HTTP", kids=[N("GET", "/x"), N("Response", t="200", kids=[N("Cookie", "b")])])))]),
+]
+
+FAMILIES = SCOPES + RECURSION + PARENTS + VIEWS
 
 # one minimal program per defect class found by this check (the deviation that describes it in DSLProgram.tla)
 REPRODUCERS = [
